@@ -110,9 +110,11 @@ Section Oracle.
     ok_timely_all states aw o && ok_timely_each p0 states aw o
     && (if lib then ok_timely_reached p0 states aw o else true).
 
-  (* with a timeout of T > 0 ticks the call has returned by tick T+1 *)
-  Definition ok_timeout (T : option nat) (o : @res state) : bool :=
-    match T with Some (S t) => ret_by o (S (S t)) | _ => true end.
+  (* with a truthy timeout the call has returned one poll after the first tick
+     d at which the timeout has expired (d = T for T > 0 ticks, d = 0 for a
+     negative timeout: it returns at its first check) *)
+  Definition ok_timeout (T : tmo) (o : @res state) : bool :=
+    match deadline T with Some d => ret_by o (S d) | None => true end.
 
   (* some tick j <= t at which the entity showed a requested state, a final
      state, or a state later than the earliest requested one *)
@@ -125,7 +127,7 @@ Section Oracle.
   (* justified: a return at tick t happens because the timeout has expired,
      the manager terminates, or every awaited entity has reached what was
      asked for -- the call never returns early *)
-  Definition ok_justified (states : list state) (T term : option nat)
+  Definition ok_justified (states : list state) (T : tmo) (term : option nat)
     (aw : list (@traj state)) (o : @res state) : bool :=
     match o with
     | Returned _ t => timed_out T t || term_set term t
@@ -145,7 +147,7 @@ Section Oracle.
     find_all tab (snd (sel_pilots seqb final tab u)).
   Definition as_list (u : uidsel) : bool := match u with UOne _ => false | _ => true end.
 
-  Definition clauses (p0 : nat) (lib lst : bool) (states : list state) (T term : option nat)
+  Definition clauses (p0 : nat) (lib lst : bool) (states : list state) (T : tmo) (term : option nat)
     (aw : option (list (@traj state))) (o : @res state) : list bool :=
     match aw with
     | Some a => [ ok_truthful lst a o; ok_timely p0 lib states a o; ok_timeout T o;
@@ -153,17 +155,17 @@ Section Oracle.
     | None => [ match o with Returned _ _ => false | _ => true end; true; true; true; true ]
     end.
 
-  Definition entity_row (r : req) (T term : option nat) (fuel : nat) (tr : traj)
+  Definition entity_row (r : req) (T : tmo) (term : option nat) (fuel : nat) (tr : traj)
     (o : @res state) : list bool :=
     res_eqb (entity_wait seqb final r T term fuel tr) o
     :: clauses 0 false false (norm final r) T term (Some [tr]) o.
 
-  Definition wait_tasks_row (r : req) (T term : option nat) (fuel : nat)
+  Definition wait_tasks_row (r : req) (T : tmo) (term : option nat) (fuel : nat)
     (tab : table) (u : uidsel) (o : @res state) : list bool :=
     res_eqb (wait_tasks seqb final value r T term fuel tab u) o
     :: clauses 1 true (as_list u) (norm final r) T term (awaited_tasks tab u) o.
 
-  Definition wait_pilots_row (r : req) (T term : option nat) (fuel : nat)
+  Definition wait_pilots_row (r : req) (T : tmo) (term : option nat) (fuel : nat)
     (tab : table) (u : uidsel) (o : @res state) : list bool :=
     res_eqb (wait_pilots seqb final r T term fuel tab u) o
     :: clauses 0 false (as_list u) (norm final r) T term (awaited_pilots tab u) o.
